@@ -725,6 +725,10 @@ class CallMixin:
             body = self.spec_bool(lam.body, s)
             local = z3.And(*s.pc) if s.pc else z3.BoolVal(True)
             if name == "forall":
+                if getattr(self, "_assuming", 0):
+                    # assumed position: the type invariants of values loaded under the binder are
+                    # facts (the same assumption every unquantified load makes), not hypotheses
+                    return [(st, SV(BOOL, z3.ForAll([q], z3.Implies(rng, z3.And(local, body)))))]
                 return [(st, SV(BOOL, z3.ForAll([q], z3.Implies(rng, z3.Implies(local, body)))))]
             return [(st, SV(BOOL, z3.Exists([q], z3.And(rng, local, body))))]
         if name == "fresh":
